@@ -70,7 +70,7 @@ def _GenerateConstant(cv: LinearIR.ConstantValue) -> WebAssembly.Instruction:
             )
         elif isinstance(t, LinearIR.FloatType):
             return WebAssembly.Instruction(
-                WebAssembly.opcodes["f32.const"], (cv.Value,)
+                WebAssembly.opcodes["f32.const"], (float(cv.Value),)
             )
 
     raise Exception("Unsupported constant")
